@@ -56,6 +56,11 @@ def strategy(tier):
         'undo_first': st.sampled_from([False, False, True]),
         # the state also holds the object's own class (a value the state pickle shares with the class part of the record)
         'self_class': st.sampled_from([False, False, True]),
+        # (RCounter) the class needs constructor arguments (__getnewargs__): no instance can be made without them
+        'newargs': st.sampled_from([False, False, True]),
+        # how the classes of referenced objects are missing where the conflict is resolved: the whole module cannot be
+        # imported, or the module imports but no longer has the class
+        'missing_how': st.sampled_from(['module', 'module', 'attribute']),
         'undo': st.integers(0, 3),
         # two intermediate transactions undone in ONE transaction, in this order (None: the single undo above)
         # ('-last': one of them is the newest change, whose record is the current one on disk)
@@ -174,6 +179,9 @@ def execute(case):
     kind, variant = case['kind'], case['variant']
     klass = {'RCounter': vclasses.RCounter, 'NoResolver': vclasses.NoResolver, 'Stubborn': vclasses.Stubborn,
              'Exploding': vclasses.Exploding, 'Missing': Gone}[variant]
+    if variant == 'RCounter' and case.get('newargs'):
+        klass = vclasses.RCounterNA
+        out.label('resolvable-class-with-constructor-arguments')
     databases = {}
     dbs = []
     try:
@@ -191,7 +199,7 @@ def execute(case):
                 root2[t.name] = t
                 targets[t.name] = t
             tm.commit()         # (targets exist in their databases before they are referenced)
-            obj = klass()
+            obj = klass('na') if klass is vclasses.RCounterNA else klass()
             obj.n = 0
             if case.get('self_class') and variant != 'Missing':
                 obj.c_factory = type(obj)
@@ -233,7 +241,18 @@ def execute(case):
             # pickle its objects: the module disappears only for the duration of storage.store()
             orig_store = storage.store
 
+            by_attr = case.get('missing_how') == 'attribute' and variant != 'Missing'
+
             def store(*a, **kw):
+                if by_attr:
+                    # the module still imports, the class of the referenced objects is gone from it
+                    m_ = sys.modules.get(MISSING_MOD)
+                    gone = m_.__dict__.pop('GoneNode', None) if m_ is not None else None
+                    try:
+                        return orig_store(*a, **kw)
+                    finally:
+                        if gone is not None:
+                            m_.GoneNode = gone
                 mod = sys.modules.pop(MISSING_MOD, None)
                 try:
                     return orig_store(*a, **kw)
@@ -241,6 +260,8 @@ def execute(case):
                     if mod is not None:
                         sys.modules[MISSING_MOD] = mod
             storage.store = store
+            if by_attr:
+                out.label('class-of-referenced-objects-gone-from-importable-module')
 
         def model_of(conn):
             """canonical state of the contested object as seen through conn"""
